@@ -10,8 +10,8 @@ FQDN, cluster VIP, Kubernetes DNS search-path abbreviations valid from the proxy
 handled by the VirtualService whose host is most specific for `S` (exact host first, else the longest
 matching wildcard; oldest first among equals) when that VirtualService has a rule for this proxy, and
 by the default route of `S` otherwise; destinations are resolved against the FULL service registry.
-An authority that names no service on the port is not routed (404; the passthrough / allow-any
-virtual host is added outside `BuildSidecarOutboundVirtualHosts`).
+An authority that names no service on the port falls to the catch-all virtual host, which under
+the default `outboundTrafficPolicy: ALLOW_ANY` forwards to `PassthroughCluster`.
 
 This file is a specification only (no theorem links it to the models of the pieces); it is compared
 with the REAL `BuildSidecarOutboundVirtualHosts` output by stream `rds`.  Listener port 80, where
@@ -32,6 +32,7 @@ structure Mesh where
   svcs : List MeshSvc := []
   vss : List VirtualService := []      -- creation order
   proxyDomain : String := ""
+  built : Bool := false                -- a route configuration was built for the current mesh (driver only)
   deriving Repr
 
 /-- Names of a service as seen from the proxy: label-level rendering of the Kubernetes DNS search
@@ -65,7 +66,7 @@ def meshSpec (re : Regex) (c : Ctx) (m : Mesh) (req : Request) : Decision :=
   let a := lower req.authority
   match (m.svcs.filter (fun s => s.ports.contains c.listenPort)).find?
       (fun s => (svcNames s m.proxyDomain).any (fun n => lower n == a)) with
-  | none => .notFound
+  | none => .forward [("PassthroughCluster", 1)]   -- catch-all virtual host (outboundTrafficPolicy ALLOW_ANY)
   | some s =>
     match vsFor m.vss s.host with
     | some vs => if vsApplies c vs then vsSpec re c vs req else .forward [(subsetKey "" s.host c.listenPort, 1)]
